@@ -26,8 +26,8 @@ def markup_events(ctx, res):
         import random
         rnd = random.Random(ctx.seed)
         rnd.shuffle(docs)
-        docs = docs[:700]
-    evs, _, _ = run_harness(ctx, "pub", "TestVerifMarkup", {"docs": docs, "widths": widths, "random": 300 if q else 3000}, timeout=2400)
+        docs = docs[:450]
+    evs, _, _ = run_harness(ctx, "pub", "TestVerifMarkup", {"docs": docs, "widths": widths, "random": 150 if q else 3000}, timeout=2400)
     res.extra["documents_from_tlc"] = len(docs)
     res.extra["width_sequences_from_tlc"] = len(widths)
     _cache[ctx.pid] = evs
